@@ -32,7 +32,7 @@ func guarded(fn func() error) (err error, bad string) {
 	}()
 	select {
 	case <-done:
-	case <-time.After(20 * time.Second):
+	case <-after(20 * time.Second):
 		bad = "hang: no result within 20 s"
 	}
 	return
